@@ -203,6 +203,17 @@ tzm_open(const char *fn)
 	}
 	/* turn offset into native endianness */
 	m->off = be32toh(m->off);
+	/* the zone names must lie within the file and be \nul terminated,
+	 * the mapped names behind them come in words and end in an offset */
+	fz -= sizeof(*m);
+	if (UNLIKELY(m->off > fz ||
+		     m->off % sizeof(m->off) || fz % sizeof(m->off))) {
+		goto mun;
+	} else if (UNLIKELY(m->off && m->data[m->off - 1U])) {
+		goto mun;
+	} else if (UNLIKELY(fz > m->off && m->data[fz - sizeof(m->off)])) {
+		goto mun;
+	}
 	/* also put fd and map size into m */
 	m->flags[0U] = (znoff_t)fd;
 	m->flags[1U] = (znoff_t)st->st_size;
@@ -271,7 +282,13 @@ tzm_find(tzmap_t m, const char *mname)
 			sp = op + 1U;
 		} else {
 			/* found it */
-			return zns + (be32toh(*op) >> 8U);
+			znoff_t off = be32toh(*op) >> 8U;
+
+			if (UNLIKELY(off >= tzm_zname_size(m))) {
+				/* that's not a zone name */
+				break;
+			}
+			return zns + off;
 		}
 	}
 	return NULL;
